@@ -12,6 +12,8 @@
 //	                 GOMAXPROCS 1, 2, 3, 5, 6, 7, 16
 //	many_test.go     C08.many: scripts repeated more than 2^16 times on one or two small arrays; C08.wrap32
 //	                 (thorough only): one cheap call repeated more than 2^32 times
+//	text_test.go     C08.text: String() results of exactly 2^k - 1, 2^k, 2^k + 1 bytes kept over later calls;
+//	                 C08.indep: independent arrays printed by many goroutines in parallel
 package c08
 
 import (
@@ -20,6 +22,8 @@ import (
 	"runtime"
 	"strconv"
 	"strings"
+	"sync"
+	"sync/atomic"
 	"testing"
 
 	"gopkg.in/typ.v4/arrays"
@@ -61,6 +65,12 @@ type Case struct {
 	Procs int `json:"procs,omitempty"`
 	// Lean: the case is executed by the row-wise executor for very large grids (par_test.go).
 	Lean bool `json:"lean,omitempty"`
+	// Hist: special histories on small arrays (hist_test.go).
+	Hist *Hist `json:"hist,omitempty"`
+	// Flip: while the case runs another goroutine flips runtime.GOMAXPROCS between 2 and 7.
+	Flip bool `json:"flip,omitempty"`
+	// Text: cases about String() results of exact lengths and about independent arrays printed in parallel (text_test.go).
+	Text *Text `json:"text,omitempty"`
 }
 
 // Second describes the second array of a case.
@@ -114,7 +124,7 @@ const rule = "case = shape (w,h >= 0), element type, constructor (New2D / New2DF
 	"corners; Clone: the side not worked on is a frozen witness compared cell by cell after every later mutation; String == model " +
 	"rendered [[a b] [c d]] (cells as fmt.Sprint) at the end of every case of at most 1024 cells (and wherever the script has a String operation), and the last two strings returned " +
 	"are kept and must still read the same after every later operation. non-trivial = w != h, both >= 2, " +
-	"and at least one successful write in the last row and one in the last column of the first array"
+	"and at least one successful write in the last row and one in the last column of the first array. In every unit but C08.par one case in eight (C08.rand, C08.types, C08.big, C08.many, C08.text: in sixteen) is afterwards run again as 4 independent copies in parallel goroutines (each copy on arrays of its own): all copies must pass"
 
 // maxCells bounds the grids the executor accepts (the whole grid is read back after every operation).
 const maxCells = 1 << 22
@@ -273,6 +283,53 @@ func regType[T any](name string, mk func() *desc[T]) {
 	typeOrder = append(typeOrder, name)
 }
 
+// setProcs sets runtime.GOMAXPROCS(n) for the running case and returns the function that restores it. Parallel
+// independent copies of one case (Spec.Replicas) all ask for the same n: the first one in remembers the old
+// value, the last one out restores it.
+var procsState struct {
+	sync.Mutex
+	users, old int
+}
+
+func setProcs(n int) func() {
+	procsState.Lock()
+	defer procsState.Unlock()
+	old := runtime.GOMAXPROCS(n)
+	if procsState.users == 0 {
+		procsState.old = old
+	}
+	procsState.users++
+	return func() {
+		procsState.Lock()
+		defer procsState.Unlock()
+		if procsState.users--; procsState.users == 0 {
+			runtime.GOMAXPROCS(procsState.old)
+		}
+	}
+}
+
+// flipProcs starts a goroutine that flips runtime.GOMAXPROCS between 2 and 7 until the returned function is
+// called (which waits for it and restores the value found at the start).
+func flipProcs() func() {
+	old := runtime.GOMAXPROCS(0)
+	var stop atomic.Bool
+	done := make(chan struct{})
+	go func() {
+		defer close(done)
+		for i := 0; !stop.Load(); i++ {
+			runtime.GOMAXPROCS(2 + 5*(i%2))
+			for j := 0; j < 50 && !stop.Load(); j++ {
+				runtime.Gosched()
+			}
+		}
+	}()
+	return func() {
+		stop.Store(true)
+		<-done
+		runtime.GOMAXPROCS(old)
+	}
+}
+
 // Run executes one case on the element type it names.
 func Run(c Case) pbt.Outcome {
 	r, ok := runners[c.T]
@@ -283,9 +340,15 @@ func Run(c Case) pbt.Outcome {
 		return pbt.Outcome{Skipped: true}
 	}
 	if c.Procs > 0 && c.Procs <= 256 {
-		defer runtime.GOMAXPROCS(runtime.GOMAXPROCS(c.Procs))
+		defer setProcs(c.Procs)()
+	}
+	if c.Flip {
+		defer flipProcs()()
 	}
 	out := r(c)
+	if c.Flip {
+		out.Labels = append(out.Labels, "GOMAXPROCS-flipped-between-2-and-7-by-another-goroutine-meanwhile")
+	}
 	if c.Procs > 0 && c.Procs <= 256 {
 		out.Labels = append(out.Labels, "GOMAXPROCS:"+strconv.Itoa(c.Procs))
 	}
@@ -1278,7 +1341,7 @@ var specEnum = pbt.Register(&pbt.Spec[Case]{
 		"first one's Row windows) the script two: Set at every coordinate that lies in one of the two grids, RowSpan, String, two Fills, Row, Get and Clone made on one array and then with the same arguments " +
 		"on the other (on the shapes with (w+2h) mod 7 = 3 with a runtime.GC() in the middle); " + rule,
 	Enum: func(shard, shards int, tier string, yield func(Case) bool) { enumerate(tier, yield) },
-	Run:  Run, Exhaustive: true,
+	Run:  Run, Exhaustive: true, Replicas: 4, ReplicaEvery: 8,
 })
 
 // ---------------------------------------------------------------- random unit
@@ -1483,7 +1546,7 @@ var specRand = pbt.Register(&pbt.Spec[Case]{
 		"values around MaxInt/stride and 2^64/stride where the flat index overflows); 1/6 of the Set/Fill write a special value; in 1/10 of the cases " +
 		"one operation gets a y solved so that x + y*width overflows to an index inside the backing store; " + rule,
 	Gen: genCase,
-	Run: Run, Quick: 32000, Thorough: 150000,
+	Run: Run, Quick: 32000, Thorough: 150000, Replicas: 4, ReplicaEvery: 16,
 })
 
 func TestC08Enum(t *testing.T) { pbt.Check(t, specEnum) }
